@@ -787,6 +787,160 @@ def objstm_overlap_file(kind, npairs=4000, big=200000):
     return pdf_classic(objs)
 
 
+# ------------------------------------------------------------------------------------------
+# deferred stream lengths (Reader::read_stream_content): a stream whose /Length is a reference the parser cannot turn into a
+# number while it reads the stream keeps its position; after all objects (and the members of the object streams) are loaded the
+# length is looked up again -- with the arithmetic `start + length` on a number the FILE chooses (seeded C04/p1)
+# ------------------------------------------------------------------------------------------
+def pdf_xref_stream_of(objs, members=(), ostm_num=None, compress=False, root=1, extra=b'', header=b'%PDF-1.5\n'):
+    """objs: (num, body) top-level objects; members: (num, body) put into ONE object stream numbered ostm_num; the
+    cross-reference section is a stream W [1 4 2] numbered max + 1 (not compressed: the loader model reads it without a decoder)"""
+    out = bytearray(header)
+    offs = {}
+    for num, body in objs:
+        offs[num] = len(out)
+        out += b'%d 0 obj\n' % num + body + b'\nendobj\n'
+    comp = {}
+    if members:
+        idx, body = b'', b''
+        for i, (n, b) in enumerate(members):
+            idx += b'%d %d ' % (n, len(body))
+            body += b + b'\n'
+            comp[n] = i
+        plain = idx + body
+        data = zlib.compress(plain, 9) if compress else plain
+        offs[ostm_num] = len(out)
+        out += b'%d 0 obj\n<</Type/ObjStm/N %d/First %d%s/Length %d>>stream\n' % (
+            ostm_num, len(members), len(idx), b'/Filter/FlateDecode' if compress else b'', len(data)) + data + b'\nendstream\nendobj\n'
+    xnum = max(list(offs) + list(comp)) + 1
+    offs[xnum] = len(out)
+    raw = b''
+    for n in range(xnum + 1):
+        if n in offs:
+            raw += b'\x01' + offs[n].to_bytes(4, 'big') + b'\x00\x00'
+        elif n in comp:
+            raw += b'\x02' + ostm_num.to_bytes(4, 'big') + comp[n].to_bytes(2, 'big')
+        else:
+            raw += b'\x00\x00\x00\x00\x00' + (b'\xff\xff' if n == 0 else b'\x00\x00')
+    out += b'%d 0 obj\n<</Type/XRef/Size %d/W[1 4 2]/Root %d 0 R%s/Length %d>>stream\n' % (xnum, xnum + 1, root, extra, len(raw))
+    out += raw + b'\nendstream\nendobj\nstartxref\n%d\n%%%%EOF\n' % offs[xnum]
+    return bytes(out)
+
+
+def objstm_plain_obj(members):
+    idx, body = b'', b''
+    for n, b in members:
+        idx += b'%d %d ' % (n, len(body))
+        body += b + b'\n'
+    plain = idx + body
+    return b'<</Type/ObjStm/N %d/First %d/Length %d>>stream\n' % (len(members), len(idx), len(plain)) + plain + b'\nendstream'
+
+
+LENGTH_VALUES = [b'-1', b'-2', b'-3', b'-7', b'-8', b'-64', b'-255', b'-4096', b'-2147483648', b'-4294967296', b'-9223372036854775807',
+                 b'-9223372036854775808', b'0', b'1', b'3', b'4', b'5', b'11', b'100000', b'4294967295', b'4294967296',
+                 b'9223372036854775807', b'18446744073709551615', b'-0', b'+3', b'3.0', b'-1.0', b'-7.5', b'/Three', b'(3)', b'null',
+                 b'true', b'[3]', b'<</Length -1>>']
+
+
+def deferred_length_family(q):
+    """`/Length N 0 R` where N is (a) a plain integer object written AFTER the stream (resolved while parsing), (b) a reference
+    to a reference (to the value; also a chain of three, and a reference cycle), (c) a member of an object stream (type-2 entry
+    in a cross-reference stream; in a table file the member is only known once the object streams are expanded), (d) missing /
+    free / its own stream; the value every kind of number and non-number.  The data are `ABC`, 0 bytes, and 300 bytes; the
+    stream is the first, a middle and the LAST object before the cross-reference section (start + length near the file end).
+    Yields (kind, name, file)"""
+    cat = [(1, b'<</Type/Catalog/Pages 2 0 R>>'), (2, b'<</Type/Pages/Kids[]/Count 0>>')]
+    k = 0
+    for vi, val in enumerate(LENGTH_VALUES):
+        for di, data in enumerate((b'ABC', b'', b'x' * 300)):
+            if q and di and (vi + di) % 4:
+                continue
+            st = lambda ref: (3, b'<</Length %s>>stream\n' % ref + data + b'\nendstream')
+            shapes = [
+                ('a-later', 't', cat + [st(b'4 0 R'), (4, val)], ()),
+                ('a-earlier', 't', cat[:1] + [(4, val)] + cat[1:] + [st(b'4 0 R')], ()),
+                ('b-refref', 't', cat + [st(b'4 0 R'), (4, b'5 0 R'), (5, val)], ()),
+                ('b-refref-last', 't', cat + [(4, b'5 0 R'), (5, val), st(b'4 0 R')], ()),
+                ('b-chain3', 't', cat + [st(b'4 0 R'), (4, b'5 0 R'), (5, b'6 0 R'), (6, val)], ()),
+                ('c-member', 's', cat + [st(b'5 0 R')], [(5, val)]),
+                ('c-member-ref', 's', cat + [st(b'6 0 R'), (6, b'5 0 R')], [(5, val)]),
+                ('c-member-of-ref', 's', cat + [st(b'5 0 R'), (6, val)], [(5, b'6 0 R')]),
+                ('c-member-table', 't', cat + [st(b'5 0 R')], [(5, val)]),         # a table cannot list the member
+                ('b-refref-s', 's', cat + [st(b'4 0 R'), (4, b'5 0 R'), (5, val)], ()),
+                ('a-later-s', 's', cat + [st(b'4 0 R'), (4, val)], ()),
+                ('c-member-z', 's', cat + [st(b'5 0 R')], [(5, val), (7, b'<</K 1>>')]),
+            ]
+            for si, (name, fmt, objs, members) in enumerate(shapes):
+                k += 1
+                if q and di and si % 3 != k % 3:
+                    continue
+                if fmt == 't':
+                    f = pdf_classic(objs + ([(9, objstm_plain_obj(members))] if members else []))
+                else:
+                    f = pdf_xref_stream_of(objs, members, 9, compress=name.endswith('-z'))
+                nm = '%s-%s-%d' % (name, val.decode('latin1'), len(data))
+                yield ('loadm' if not name.endswith('-z') else 'load'), nm, f
+                if not q or k % 3 == 0 or (val in (b'-1', b'-7') and name.startswith(('b-', 'c-'))):
+                    yield ('incloadm' if not name.endswith('-z') else 'incload'), nm, f
+    # (d) the length object is missing, free, the stream itself, another stream, a cycle of references
+    for name, objs in [
+        ('d-missing', cat + [(3, b'<</Length 4 0 R>>stream\nABC\nendstream')]),
+        ('d-missing-big', cat + [(3, b'<</Length 4000000000 0 R>>stream\nABC\nendstream')]),
+        ('d-gen', cat + [(3, b'<</Length 4 1 R>>stream\nABC\nendstream'), (4, b'-1')]),
+        ('d-self', cat + [(3, b'<</Length 3 0 R>>stream\nABC\nendstream')]),
+        ('d-cycle', cat + [(3, b'<</Length 4 0 R>>stream\nABC\nendstream'), (4, b'5 0 R'), (5, b'4 0 R')]),
+        ('d-stream', cat + [(3, b'<</Length 4 0 R>>stream\nABC\nendstream'), (4, b'<</Length 5 0 R>>stream\nX\nendstream'), (5, b'4 0 R')]),
+        ('d-two', cat + [(3, b'<</Length 5 0 R>>stream\nABC\nendstream'), (4, b'<</Length 5 0 R>>stream\nDEFG\nendstream'), (5, b'6 0 R'), (6, b'-1')]),
+        ('d-nolength', cat + [(3, b'<<>>stream\nABC\nendstream')]),
+        ('d-refref-missing', cat + [(3, b'<</Length 4 0 R>>stream\nABC\nendstream'), (4, b'5 0 R')]),
+    ]:
+        yield 'loadm', name, pdf_classic(objs)
+        yield 'incloadm', name, pdf_classic(objs)
+        yield 'loadm', name + '-s', pdf_xref_stream_of(objs)
+
+
+# ------------------------------------------------------------------------------------------
+# ToUnicode CMaps that map nothing (seeded C04/p3): only codespace ranges, no section at all, empty sections, only notdef
+# ranges -- with texts of 1..300 bytes.  Every byte of the text then belongs to an unmapped code; what keeps the code
+# accumulator (u32) and the byte counter (u8) of Encoding::bytes_to_string in range is the cut at four bytes.
+# ------------------------------------------------------------------------------------------
+CMAP_PRE = b'/CIDInit /ProcSet findresource begin 12 dict begin begincmap /CMapType 2 def '
+
+
+def empty_cmap_family():
+    """yields (name, cmap stream, text, code length for the font dictionary of the whole-file variant)"""
+    cmaps = [
+        ('cs1', CMAP_PRE + b'1 begincodespacerange <00> <ff> endcodespacerange' + CMAP_TAIL, 1),
+        ('cs2', CMAP_PRE + b'1 begincodespacerange <0000> <ffff> endcodespacerange' + CMAP_TAIL, 2),
+        ('cs3', CMAP_PRE + b'1 begincodespacerange <000000> <ffffff> endcodespacerange' + CMAP_TAIL, 2),
+        ('cs4', CMAP_PRE + b'1 begincodespacerange <00000000> <ffffffff> endcodespacerange' + CMAP_TAIL, 2),
+        ('cs12', CMAP_PRE + b'2 begincodespacerange <00> <7f> <8000> <ffff> endcodespacerange' + CMAP_TAIL, 2),
+        ('cs-two', CMAP_PRE + b'1 begincodespacerange <00> <ff> endcodespacerange 1 begincodespacerange <0000> <ffff> endcodespacerange' + CMAP_TAIL, 1),
+        ('none', CMAP_PRE.rstrip() + CMAP_TAIL, 1),
+        ('bfchar0', CMAP_PRE + b'1 begincodespacerange <00> <ff> endcodespacerange 0 beginbfchar endbfchar' + CMAP_TAIL, 1),
+        ('bfrange0', CMAP_PRE + b'1 begincodespacerange <00> <ff> endcodespacerange 0 beginbfrange endbfrange' + CMAP_TAIL, 1),
+        ('notdef', CMAP_PRE + b'1 begincodespacerange <00> <ff> endcodespacerange 1 beginnotdefrange <00> <ff> 0 endnotdefrange' + CMAP_TAIL, 1),
+        ('notdef-only', CMAP_PRE + b'1 beginnotdefrange <00> <ff> 0 endnotdefrange' + CMAP_TAIL, 1),
+        ('cs-lf', CMAP_PRE.replace(b' ', b'\n') + b'1 begincodespacerange\n<0000> <FFFF>\nendcodespacerange\n' + b'endcmap\nCMapName currentdict /CMap defineresource pop\nend\nend\n', 2),
+        # controls: one mapping of 1 / 2 / 3 / 4 bytes (the longest code the CMap uses is then 1..4)
+        ('one1', CMAP_HEAD1 + b'1 beginbfchar <41> <0041> endbfchar' + CMAP_TAIL, 1),
+        ('one2', CMAP_HEAD2 + b'1 beginbfchar <0041> <0041> endbfchar' + CMAP_TAIL, 2),
+        ('one3', CMAP_HEAD2 + b'1 beginbfchar <000041> <0041> endbfchar' + CMAP_TAIL, 2),
+        ('one4', CMAP_HEAD2 + b'1 beginbfrange <00000041> <00000043> <0041> endbfrange' + CMAP_TAIL, 2),
+    ]
+    texts = []
+    for n in (1, 2, 3, 4, 5, 6, 7, 8, 9, 12, 16, 17, 33, 64, 100, 255, 256, 257, 258, 300):
+        texts.append(('z%d' % n, bytes(n)))                                    # a run of zero bytes
+        texts.append(('f%d' % n, b'\xff' * n))
+        texts.append(('a%d' % n, bytes((0x41 + i) % 256 for i in range(n))))
+        if n > 1:
+            texts.append(('1z%d' % n, b'\x01' + bytes(n - 1)))                 # the first byte is not zero
+            texts.append(('z1%d' % n, bytes(n - 1) + b'\x01'))
+    for name, cm, clen in cmaps:
+        for tname, text in texts:
+            yield name + '-' + tname, cm, text, clen
+
+
 def gen_cases(rng, tier):
     q = tier == 'quick'
     cases = []
@@ -891,6 +1045,14 @@ def gen_cases(rng, tier):
     add(case('load', XB(pdf_classic(simple_objs(), prev=0))), 'load-prev-0')
     for kind, name, f in prev_chain_family(q):
         add(case(kind, XB(f)), kind + '-prevchain')
+    for kind, name, f in deferred_length_family(q):
+        add(case(kind, XB(f)), kind + '-deferredlength')
+    for i, (name, cm, text, clen) in enumerate(empty_cmap_family()):
+        if q and i % 2 and not name.startswith(('cs1-', 'cs2-')):
+            continue
+        add(case('cmap', XB(cm), XB(text)), 'cmap-emptyfamily')
+        if not q or i % 5 == 0:
+            add(case('loadtext', XB(pdf_with_tounicode(cm, text, clen))), 'loadtext-emptyfamily')
     return cases
 
 
